@@ -9,7 +9,7 @@
  *
  *   sc.run OP OP ...        (sc.runt when built without -DHOST_BUILD: firmware flavour, 256 octet buffer)
  *     reg D        sercomm_register_rx_cb(D, recorder)          -> g:<rc>
- *     send D HEX   msg = sercomm_alloc_msgb(len); put HEX; sercomm_sendmsg(D, msg)
+ *     send D HEX   msg = sercomm_alloc_msgb(max(len, 1)); put HEX; sercomm_sendmsg(D, msg)
  *     pull N       up to N times sercomm_drv_pull(); stops when it returns 0
  *                                                              -> p:<octets pulled> (merged), e (returned 0)
  *     rx HEX       sercomm_drv_rx_char() for every octet        -> o (a call returned 0)
@@ -191,7 +191,11 @@ static int run_ops(char **tok, int ntok)
 			n = unhex(tok[i + 2], &d);
 			if (n < 0 || n > 60000)
 				return -1;
-			msg = sercomm_alloc_msgb(n);
+			/* the caller's buffer: room for the payload; at least 1, because
+			 * sercomm_alloc_msgb(0) -> msgb_alloc_headroom(4, 4) evaluates
+			 * osmo_static_assert(size > headroom) on run-time values, a
+			 * negative VLA bound (flagged by UBSan; not part of the code under test) */
+			msg = sercomm_alloc_msgb(n ? n : 1);
 			if (!msg)
 				_exit(4);
 			if (n)
